@@ -386,9 +386,32 @@ def check_net(ctx, c):
                    [r, S.Reaction(c["text"], label="r1")])
 
 
+# ---- thorough tier: coverage-guided campaign (Atheris) with the reference oracle inside the target ----------
+
+def enum_atheris(ctx):
+    if ctx.tier != "thorough":
+        return
+    yield {"corpus": "empty", "runs": 1500000, "seed": ctx.seed}
+    yield {"corpus": "empty", "runs": 1500000, "seed": ctx.seed + 1000}
+
+
+def check_atheris(ctx, c):
+    from vlib import atheris_run
+    if not atheris_run.available():
+        ctx.skip("atheris is not installed (setup.sh could not install it)")
+        return
+    execs, fail = atheris_run.campaign("equation_fuzz.py", c["runs"], c["seed"], prop="C19")
+    ctx.note(c, True, ["atheris"])
+    ctx.count("atheris_executions", execs)
+    if fail:
+        raise Violation("Atheris (%d executions): %s ; input saved as %s (re-run: %s)" % (execs, fail["message"], fail["artifact"], fail["rerun"]),
+                        key="atheris")
+
+
 FACETS = [
     Facet("stoichiometry", check_sto, strategy=strat_sto, examples=(6000, 200000), shards=(8, 16)),
     Facet("constants", check_const, strategy=strat_const, examples=(4000, 100000), shards=(8, 16)),
     Facet("split_K", check_split, strategy=strat_split, examples=(3000, 80000), shards=(8, 16)),
     Facet("network", check_net, strategy=strat_net, examples=(3000, 60000), shards=(4, 16)),
+    Facet("atheris", check_atheris, enumerate=enum_atheris, shards=(2, 2)),
 ]
